@@ -29,7 +29,7 @@ def run_case(ctx, i, rng):
     feat = wfgen.Features(
         future_offsets=rng.random() < 0.5, stop_after=rng.random() < 0.5,
         recs=['P1', 'P2', 'P3', 'R1', 'R1/$', '2/P2', '+P1/P2', 'R2/P2',
-              'R1/2', 'R2//P2'],
+              'R1/2', 'R2//P2', '0/P3', '-1/P3', '-P1/P3'],
         max_sections=3)
     simple_case(ctx, i, rng, PID, feat, plan_class='all-complete',
                 hostile=0.3)
